@@ -125,40 +125,45 @@ func (c *Ctx) Seen(set, item string) {
 		c.res.Sets[set] = append(c.res.Sets[set], item)
 	}
 }
-func (c *Ctx) Events(n int64)     { c.mu.Lock(); c.res.Events += n; c.mu.Unlock() }
-func (c *Ctx) Shape(s string)     { c.mu.Lock(); c.res.Shape = s; c.mu.Unlock() }
-func (c *Ctx) NonTrivial(b bool)  { c.mu.Lock(); c.res.NonTriv = b; c.mu.Unlock() }
-func (c *Ctx) Sample(v any)       { c.mu.Lock(); c.res.Sample = v; c.mu.Unlock() }
-func (c *Ctx) Witness(v any)      { c.mu.Lock(); c.res.Witness = v; c.mu.Unlock() }
-func (c *Ctx) Tag() string        { return fmt.Sprintf("%s%s-%d-%d", c.Prop, c.Part, c.Seed, c.Index) }
-func (c *Ctx) Thorough() bool     { return c.Tier == Thorough }
-func (c *Ctx) Pick(q, t int) int  { if c.Tier == Thorough { return t }; return q }
+func (c *Ctx) Events(n int64)    { c.mu.Lock(); c.res.Events += n; c.mu.Unlock() }
+func (c *Ctx) Shape(s string)    { c.mu.Lock(); c.res.Shape = s; c.mu.Unlock() }
+func (c *Ctx) NonTrivial(b bool) { c.mu.Lock(); c.res.NonTriv = b; c.mu.Unlock() }
+func (c *Ctx) Sample(v any)      { c.mu.Lock(); c.res.Sample = v; c.mu.Unlock() }
+func (c *Ctx) Witness(v any)     { c.mu.Lock(); c.res.Witness = v; c.mu.Unlock() }
+func (c *Ctx) Tag() string       { return fmt.Sprintf("%s%s-%d-%d", c.Prop, c.Part, c.Seed, c.Index) }
+func (c *Ctx) Thorough() bool    { return c.Tier == Thorough }
+func (c *Ctx) Pick(q, t int) int {
+	if c.Tier == Thorough {
+		return t
+	}
+	return q
+}
 
 // Part is one workload of a check.
 type Part struct {
-	Name     string
-	Race     bool                // run in the race-instrumented binary
-	Cases    func(t Tier) int    // fixed-length case list
-	Run      func(c *Ctx)        // one case
-	Workers  int                 // max worker processes (0 = number of CPUs)
-	Quiet    time.Duration       // no journal progress for this long => hang handling (0 = 60s)
-	Procs    int                 // GOMAXPROCS per worker (0 = 4)
-	Chunk    int                 // cases per worker process invocation (0 = auto)
+	Name    string
+	Race    bool             // run in the race-instrumented binary
+	Cases   func(t Tier) int // fixed-length case list
+	Run     func(c *Ctx)     // one case
+	Workers int              // max worker processes (0 = number of CPUs)
+	Quiet   time.Duration    // no journal progress for this long => hang handling (0 = 60s)
+	Procs   int              // GOMAXPROCS per worker (0 = 4)
+	Chunk   int              // cases per worker process invocation (0 = auto)
 }
 
 // Check is the set of workloads and the evidence text of one property.
 type Check struct {
 	ID          string
 	Parts       []Part
-	Rule        string   // how cases are generated and what makes one non-trivial/distinct
+	Rule        string // how cases are generated and what makes one non-trivial/distinct
 	Assumptions []string
-	Floor       int      // minimum number of distinct non-trivial cases for a conclusive run
+	Floor       int                                      // minimum number of distinct non-trivial cases for a conclusive run
 	Extra       func(agg *Aggregate, cov map[string]any) // optional extra evidence keys
 }
 
 var registry = map[string]*Check{}
 
-func Register(c *Check) { registry[c.ID] = c }
+func Register(c *Check)       { registry[c.ID] = c }
 func Lookup(id string) *Check { return registry[id] }
 func IDs() []string {
 	var ids []string
@@ -443,14 +448,14 @@ func ParentMain(o Options) int {
 	// evidence
 	distinct := len(agg.Shapes)
 	cov := map[string]any{
-		"evaluations":         agg.Evaluations,
-		"distinct_nontrivial": distinct,
-		"rule":                ck.Rule,
-		"samples":             agg.Samples,
-		"events_observed":     agg.Events,
-		"cases_per_part":      agg.PerPart,
-		"counts":              agg.Counts,
-		"inconclusive_cases":  len(agg.Inconcl),
+		"evaluations":               agg.Evaluations,
+		"distinct_nontrivial":       distinct,
+		"rule":                      ck.Rule,
+		"samples":                   agg.Samples,
+		"events_observed":           agg.Events,
+		"cases_per_part":            agg.PerPart,
+		"counts":                    agg.Counts,
+		"inconclusive_cases":        len(agg.Inconcl),
 		"known_findings_reobserved": known,
 		"violation_signatures":      sigs,
 	}
